@@ -23,15 +23,15 @@ FLOORS = {"R05.1": 18, "R05.4": 18, "R05.6": 18, "R05.3": 6}
 OVERHEAD = {("pie", "v1"): 80, ("pie", "v3"): 80, ("pie", "v3-aws-lc"): 80, ("pie", "v2"): 64, ("pie", "v4"): 64, ("pie", "v4-sodium"): 64,
             ("pbkw", "v1"): 100, ("pbkw", "v3"): 100, ("pbkw", "v3-aws-lc"): 100, ("pbkw", "v2"): 88, ("pbkw", "v4"): 88, ("pbkw", "v4-sodium"): 88,
             ("pke", "v1"): 560, ("pke", "v3"): 97, ("pke", "v3-aws-lc"): 97, ("pke", "v2"): 64, ("pke", "v4"): 64, ("pke", "v4-sodium"): 64}
-G8 = "zerocopy::byteorder::U64::<BigEndian>::get($params[0..8])"
+G8 = "(BE 64 $params[0..8])"
 # reviewed rejections of caller-supplied PBKW parameters (anything else derived from `params` is a violation)
 PARAM_REJECTIONS = {
     "v1": set(), "v3": set(),
-    "v3-aws-lc": {"core::num::nonzero::NonZero::<u32>::new(zerocopy::byteorder::U32::<BigEndian>::get($params))"},   # 0 iterations: not a conforming blob
+    "v3-aws-lc": {"core::num::nonzero::NonZero::<u32>::new((BE 32 $params))"},   # 0 iterations: not a conforming blob
     "v2": {f"core::num::<impl u64>::is_multiple_of({G8}, 1024)",                       # argon2 crate takes KiB
-           f"core::convert::num::<impl TryFrom<u64> for u32>::try_from((binop Div {G8} 1024))"},   # > 4 TiB
-    "v4-sodium": {f"core::convert::num::ptr_try_from_impls::<impl TryFrom<u64> for usize>::try_from({G8})",
-                  "(binop Ne zerocopy::byteorder::U32::<BigEndian>::get($params[12..16]) 1)"},    # libsodium fixes parallelism = 1
+           f"(NARROW (binop Div {G8} 1024))"},   # > 4 TiB
+    "v4-sodium": {f"(NARROW {G8})",
+                  "(binop Ne (BE 32 $params[12..16]) 1)"},    # libsodium fixes parallelism = 1
 }
 PARAM_REJECTIONS["v4"] = PARAM_REJECTIONS["v2"]
 KDF_CALLS = ("ARGON2", "argon2::", "PBKDF2", "libsodium_rs::crypto_pwhash")
